@@ -51,7 +51,7 @@ def slices(tier):
     quick_menu = [core[0], core[2], core[4], core[7]]
     quick = [
             # + hgt = 0, + full and segmental losses at different prices (either way round)
-            ("O3x2x3", spaces.shape_pairs(3, 2), o3, quick_menu + [core[6], (0, 3, 1, 1, 2), (0, 1, 1, 2, 1)], False),
+            ("O3x2x3", spaces.shape_pairs(3, 2), o3, quick_menu + [core[6], (0, 3, 1, 1, 2), (0, 1, 1, 2, 1), (0, 3, 1, 0, 0), (1, 4, 3, 0, 1)], False),   # + free full losses
             ("R-root3x2x2", spaces.shape_pairs(3, 2, min_obj=2), o2, quick_menu[:2], True),
             # 4 object leaves in a chain on one species, leaves holding subsequences of abc: three nested ancestors, a
             # family carried down past a node none of whose leaves has it
